@@ -34,9 +34,13 @@ func NASEncode(ue *RanUeContext, msg *nas.Message, securityContextAvailable bool
 		}
 
 		// TODO: Support for ue has nas connection in both accessType
-		if err = security.NASEncrypt(ue.CipheringAlg, ue.KnasEnc, ue.ULCount.Get(), security.Bearer3GPP,
-			security.DirectionUplink, payload); err != nil {
-			return
+		// only the "integrity protected and ciphered" header types carry a ciphered message
+		if msg.SecurityHeader.SecurityHeaderType == nas.SecurityHeaderTypeIntegrityProtectedAndCiphered ||
+			msg.SecurityHeader.SecurityHeaderType == nas.SecurityHeaderTypeIntegrityProtectedAndCipheredWithNew5gNasSecurityContext {
+			if err = security.NASEncrypt(ue.CipheringAlg, ue.KnasEnc, ue.ULCount.Get(), security.Bearer3GPP,
+				security.DirectionUplink, payload); err != nil {
+				return
+			}
 		}
 		// add sequece number
 		payload = append([]byte{sequenceNumber}, payload[:]...)
